@@ -39,6 +39,17 @@ func deepFieldPrograms(maxDepth int, do func(string)) {
 	}
 }
 
+// builtinLikeFields: fields and variables whose names resemble the block builtins TYPE / NAME.
+func builtinLikeFields(do func(string)) {
+	for _, id := range []string{"name", "type", "Name", "Type", "tYPE", "names", "TYPES", "NAME_", "_TYPE"} {
+		do(fmt.Sprintf("def b \"nm\" { %s = 1; print %s; print NAME; print TYPE; def c { print %s; %s = 2; print %s }; print %s }", id, id, id, id, id, id))
+		do(fmt.Sprintf("def b \"nm\" { print %s }", id))
+		do(fmt.Sprintf("var %s = 3; def b \"nm\" { print %s; %s = 4; var %s = %s + 1; print %s }; print %s", id, id, id, id, id, id, id))
+		do(fmt.Sprintf("def b \"nm\" { var %s = %s; print %s }", id, id, id))
+		do(fmt.Sprintf("def b { %s = NAME + TYPE; print %s + \"|\" + NAME }", id, id))
+	}
+}
+
 // seqCheck registers a check whose space is "all statement sequences up to a length
 // over an alphabet", judged by the reference-model oracle.
 type seqSpec struct {
@@ -136,6 +147,7 @@ func init() {
 		mustSee: []string{"accepted-ok", "rejected:undefined", "rejected:redeclared", "accepted-rterr:unresolved", "accepted-rterr:types"},
 		extra: func(c *fw.Ctx, do func(string)) {
 			deepFieldPrograms(5, do)
+			builtinLikeFields(do)
 			// shadowing to depth 8 and name reuse between variables and fields
 			for d := 1; d <= 8; d++ {
 				src := "var x = 0; "
